@@ -146,6 +146,7 @@ def handle (toks : List String) : String :=
     | "silf" :: rest => withForm rest (handleSil 64)
     | "pearson" :: rest => handlePearson 64 rest
     | "pearson32" :: rest => handlePearson 32 rest
+    | "pearsonf" :: rest => withForm rest (handlePearson 64)
     | _ => none
   r.getD "bad-op"
 
